@@ -418,6 +418,10 @@ def cases():
         for k in range(2 if tier == 'quick' else 4):
             m = pick[(i + 3 * k) % len(pick)]
             out.append({'label': '%s/f%d' % (m.name, i), 'mesh': m, 'fields': fields, 'layout': families.scatter_layouts(m, rnd, 2), 'geom': (i + k) % 3})
+    for r in range(2 if tier == 'quick' else 60):
+        m = families.random_mesh(rnd, 2 + r % 2, max_levels=3, max_boxes=4, max_extent=4)
+        m.name = 'rand%d-%dd' % (r, m.ndims)
+        out.append({'label': m.name, 'mesh': m, 'fields': FIELD_SETS[r % len(FIELD_SETS)], 'layout': families.scatter_layouts(m, rnd, 2), 'geom': r % 3})
     return out
 
 
